@@ -27,4 +27,14 @@ PROPS = {
         "assumptions": ["sorted list with a position is the specification", "hang = no return within 20 s of a call that normally takes microseconds"],
         "parts": [part("TestC05", {"checks": 1500, "timeout": 300}, {"checks": 40000, "timeout": 1500})],
     },
+    "C07": {
+        "level": "exploration",
+        "title": "page accounting",
+        "technique": "stateful property-based testing with an independent file decoder as page-accounting oracle after every commit, failed commit and reopen",
+        "design_ref": "DESIGN.md §3 C07",
+        "text": "Generated histories (bucket-deletion/move heavy, rollbacks, size-limit failures, reopen with other options) with the independent decoder's page accounting checked after every commit and open and compared with Stats, Tx.Check, Tx.Page and the in-memory free list. Exploration over histories; the oracle itself is exact (every page below the high-water mark is classified).",
+        "note": "Trusts harness/refdec (independent implementation of the published v2 layout). Stats.FreeAlloc is not asserted directly after Open (documented as updated on transaction close). Known finding F2 excluded by construction.",
+        "assumptions": ["refdec implements the published version-2 layout", "little-endian"],
+        "parts": [part("TestC07", {"checks": 500, "steps": 70, "timeout": 300}, {"checks": 12000, "steps": 90, "timeout": 1500})],
+    },
 }
